@@ -838,7 +838,7 @@ class Node:
             # commands without a python class expose a repeated AVP as a list
             origin_host = origin_host[0] if origin_host else None
 
-        if hasattr(msg, "origin_host") and msg.header.is_request:
+        if msg.header.is_request:
             # Record who originally sent a request, as this information is lost
             # by the time an answer will go out. Identifiers are chosen by the
             # peers independently, so the connection is part of the key.
@@ -912,8 +912,7 @@ class Node:
                 return
             message_id = (f"{conn.ident}:{msg.header.hop_by_hop_identifier}:"
                           f"{msg.header.end_to_end_identifier}")
-            if (hasattr(msg, "origin_host") and
-                    message_id not in self._origin_waiting_answer):
+            if message_id not in self._origin_waiting_answer:
                 # the request has been answered already (the handler failed
                 # after sending its answer), never answer twice
                 return
